@@ -54,9 +54,10 @@ SCOPES = {
         part=dict(MaxT=4, MaxTotal=8, LabelN=3, FullTotal=5),
         pred_every=8, dtypes_int=["int64"]),
     "thorough": dict(
-        assign=[dict(name="line0..5", Dim=1, P=5, Shapes=[104, 204, 303, 401, 402]),
-                dict(name="grid3x3", Dim=2, P=2, Shapes=[203, 301, 302]),
-                dict(name="grid4x4", Dim=2, P=3, Shapes=[101, 102, 201, 202])],
+        assign=[dict(name="line0..5", Dim=1, P=5, Shapes=[104, 303, 401, 402]),
+                dict(name="line0..7", Dim=1, P=7, Shapes=[103, 202, 203]),
+                dict(name="grid3x3", Dim=2, P=2, Shapes=[203, 301]),
+                dict(name="grid4x4", Dim=2, P=3, Shapes=[101, 102, 201])],
         cf=dict(LabelN=3, FullN=5, BinN=6, MaxFN=9),
         part=dict(MaxT=4, MaxTotal=9, LabelN=3, FullTotal=7),
         pred_every=16, dtypes_int=["int64", "int32", "int16"]),
@@ -377,8 +378,9 @@ MD_SCALE = 100000      # nm -> integer
 MD_TOL = 100           # 1e-3 nm: float32 QCP RMSD noise near zero; real errors are >= 0.1 nm
 
 
-def mdtraj_records(seed, wd):
-    """Runs in the main process (batch_reassign starts its own pools)."""
+def mdtraj_records(seed, wd, only=None):
+    """Runs in the main process (batch_reassign starts its own pools).
+    only: a scenario number (replay)."""
     import warnings
     import mdtraj as md
     from enspara.cluster import util
@@ -387,10 +389,12 @@ def mdtraj_records(seed, wd):
     res = top.add_residue("ALA", top.add_chain())
     for i in range(5):
         top.add_atom("C%d" % i, md.element.carbon, res)
-    rng = np.random.RandomState(seed + 77)
     real_dbs = util.determine_batch_size
     try:
         for s, lengths in enumerate(MD_LENGTHS):
+            if only is not None and s != only:
+                continue
+            rng = np.random.RandomState((seed * 1009 + 77 + s) % (2 ** 31 - 1))
             sd = os.path.join(wd, "s%d" % s)
             os.makedirs(sd)
             files = []
@@ -606,7 +610,7 @@ def run(ctx):
     d = core.spec_tmp(SPEC_DIR)
     report = Reporter(ctx)
     thorough = ctx.tier == "thorough"
-    to = 1500 if thorough else 300
+    to = 2400 if thorough else 600
 
     jobs, roles = [], []
 
@@ -676,34 +680,42 @@ def run(ctx):
     # ---- (A) replay
     pred_recs = []
     counter = 0
+    def replay_assign_cases(acases):
+        res = core.pmap(replay_assign, acases, chunk=500)
+        for c, out in zip(acases, res):
+            nontriv = len(c["C"]) >= 2 and any(v > 0 for v in c["mind"])
+            ctx.case(hash((c["metric"], str(c["X"]), str(c["C"]), c["xyz"])) if nontriv else None,
+                     sample={k: v for k, v in c.items() if not k.startswith("_")}
+                     if nontriv and len(c["X"]) > 1 and c["xyz"] else None)
+            ctx.traces += 1
+            for form, what, detail in out["bad"]:
+                report("assign_to_nearest_center/%s/%s" % (form, what),
+                       {"kind": "assign", "form": form, "what": what, "detail": detail,
+                        "case": {k: v for k, v in c.items() if k != "_pred"},
+                        "how": "assign_to_nearest_center(X, C, metric) vs Assign.tla MinD/Allowed"})
+            pred_recs.extend(out["recs"])
+
     acases = []
     for role, r in zip(roles, results):
         if role[0] == "A-emit":
             cases = [p for t, p in r.prints if t == "CASE"]
             if not cases:
                 raise core.MachineryError("no CASE lines emitted for %s" % (role[1:],))
+            r.prints, r.stdout = [], ""
             for c in cases:
                 c["_ints"] = sc["dtypes_int"]
-                c["_allforms"] = thorough
+                c["_allforms"] = thorough and counter % 4 == 0
                 c["_rot"] = counter
                 counter += 1
                 if counter % sc["pred_every"] == 0:
                     c["_pred"] = counter
-            acases += cases
-    res = core.pmap(replay_assign, acases, chunk=500)
-    for c, out in zip(acases, res):
-        nontriv = len(c["C"]) >= 2 and any(v > 0 for v in c["mind"])
-        ctx.case((c["metric"], str(c["X"]), str(c["C"]), c["xyz"]) if nontriv else None,
-                 sample={k: v for k, v in c.items() if not k.startswith("_")}
-                 if nontriv and len(c["X"]) > 1 and c["xyz"] else None)
-        ctx.traces += 1
-        for form, what, detail in out["bad"]:
-            report("assign_to_nearest_center/%s/%s" % (form, what),
-                   {"kind": "assign", "form": form, "what": what, "detail": detail,
-                    "case": {k: v for k, v in c.items() if k != "_pred"},
-                    "how": "assign_to_nearest_center(X, C, metric) vs Assign.tla MinD/Allowed"})
-        pred_recs += out["recs"]
-    del res
+            if thorough:                 # one emit job at a time (memory)
+                replay_assign_cases(cases)
+            else:
+                acases += cases
+    if acases:
+        replay_assign_cases(acases)
+    del acases
     for role, r in zip(roles, results):
         if role[0] == "A-emit":
             continue
@@ -798,7 +810,7 @@ def replay(ctx, path):
             judge_assign_traces(ctx, report, d, random_record((g["seed"], g["j"]))[:1], "replay")
         else:
             wd = core.scratch("ev_c10md_")
-            recs = [r for r in mdtraj_records(g["seed"], wd)
+            recs = [r for r in mdtraj_records(g["seed"], wd, only=g.get("scenario"))
                     if r["_gen"].get("scenario") == g.get("scenario") and r["_gen"]["call"] == g["call"]
                     and r["_gen"].get("batch_size") == g.get("batch_size") and r["_gen"].get("branch") == g.get("branch")]
             judge_assign_traces(ctx, report, d, recs, "replay")
